@@ -42,7 +42,7 @@ static void set_script(int fd, const int *s, int n)
 static int gen_script(int *s, int maxn, int total)
 {
 	int n = 0;
-	int mode = (int)vh_below(5);
+	int mode = (int)vh_below(7);
 	int errat = vh_below(3) == 0 ? (int)vh_below(6) : -1;
 	for (int i = 0; i < maxn; i++)
 	{
@@ -53,7 +53,9 @@ static int gen_script(int *s, int maxn, int total)
 		case 1: v = 0; break;                                      /* as much as asked */
 		case 2: v = 1 + (int)vh_below(7); break;
 		case 3: v = 1 + (int)vh_below((uint32_t)(total > 0 ? total : 1)); break;
-		default: v = vh_below(2) ? 1 : 4096; break;
+		case 4: v = vh_below(2) ? 1 : 4096; break;
+		case 5: v = i == 0 ? 1 + (int)vh_below(3) : 0; break;       /* a very short first transfer, then everything */
+		default: v = i < 2 ? 1 + (int)vh_below(2) : (i == 2 ? 0 : 1 + (int)vh_below(9)); break;
 		}
 		if (i == errat)
 			v = vh_below(2) ? -EIO : -EINTR;
@@ -188,10 +190,15 @@ static void prewarm(json_object *o)
 		}
 	}
 }
+/* a fixed schedule for the next read test (forced_n > 0), else a generated one */
+static int forced[64], forced_n;
 static void do_fromfd(const unsigned char *data, size_t len, int depth, int via_file)
 {
 	int script[64];
-	int ns = gen_script(script, 40, (int)len);
+	int ns = forced_n ? forced_n : gen_script(script, 40, (int)len);
+	if (forced_n)
+		memcpy(script, forced, sizeof(int) * (size_t)forced_n);
+	forced_n = 0;
 	strcpy(tmpl, "/tmp/vh_c20_XXXXXX");
 	int fd = mkstemp(tmpl);
 	if (write(fd, data, len) != (ssize_t)len)
@@ -268,12 +275,40 @@ static int drive(int start, int nexec)
 	dump_depth_cap = 60; /* deeper parts are compared by json_object_equal only (field "equal") */
 	const char *seed = getenv("VERIF_SEED");
 	uint64_t s0 = seed ? strtoull(seed, 0, 10) : 1;
+	if (start == 0)
+	{
+		/* schedule matrix: documents just below / above the sizes at which the accumulation buffer grows, read with a
+		 * first transfer of k bytes (then everything), with k-byte transfers throughout, and with one k-byte transfer
+		 * after a full first buffer */
+		static const int kb[] = {1, 2, 5, 9, 70};
+		static const int ks[] = {1, 2, 3, 4, 7, 8, 31, 32, 33, 1023, 1024, 1025, 4095};
+		for (unsigned d = 0; d < sizeof kb / sizeof *kb; d++)
+		{
+			json_object *t = big_doc(kb[d]);
+			const char *txt = json_object_to_json_string_ext(t, 0);
+			size_t len = strlen(txt);
+			unsigned char *data = malloc(len + 1);
+			memcpy(data, txt, len);
+			for (unsigned i = 0; i < sizeof ks / sizeof *ks; i++)
+				for (int shape = 0; shape < 3; shape++)
+				{
+					ev_begin("new");
+					ev_end();
+					for (int j = 0; j < 40; j++)
+						forced[j] = shape == 0 ? (j == 0 ? ks[i] : 0) : shape == 1 ? ks[i] : (j == 1 ? ks[i] : 0);
+					forced_n = 40;
+					do_fromfd(data, len, -1, 0);
+				}
+			free(data);
+			json_object_put(t);
+		}
+	}
 	for (int x = start; x < nexec; x++)
 	{
 		vh_srand(s0 * 1000003ull + (uint64_t)x);
 		ev_begin("new");
 		ev_end();
-		json_object *t = x % 25 == 24 ? big_doc(1 + (int)vh_below(64)) : gen(3);
+		json_object *t = x % 25 == 24 ? big_doc(1 + (int)vh_below(64)) : x % 6 == 5 ? big_doc(1 + (int)vh_below(4)) : gen(3);
 		static const int fl[] = {0, JSON_C_TO_STRING_SPACED, JSON_C_TO_STRING_PRETTY, JSON_C_TO_STRING_PRETTY | JSON_C_TO_STRING_PRETTY_TAB, JSON_C_TO_STRING_NOSLASHESCAPE};
 		int flags = fl[vh_below(5)];
 		if (t)
